@@ -74,20 +74,26 @@ where
 
         let (mut stream, buf, size, packet, state) = self.split_borrows_mut();
 
-        match *state {
-            PacketStreamState::Idle => {
-                let chunk_size = if packet.end - *size < DEFAULT_CHUNK_SIZE {
-                    DEFAULT_CHUNK_SIZE
-                } else {
-                    packet.end
-                };
+        loop {
+            match *state {
+                PacketStreamState::Idle => {
+                    let chunk_size = if packet.end.saturating_sub(*size) < DEFAULT_CHUNK_SIZE {
+                        DEFAULT_CHUNK_SIZE
+                    } else {
+                        packet.end
+                    };
 
-                buf.resize(*size + chunk_size, 0);
+                    buf.resize(*size + chunk_size, 0);
 
-                if let Poll::Ready(result) = Pin::new(&mut stream)
-                    .poll_read(cx, &mut buf[*size..*size + chunk_size])
-                    .map(|res| res.ok().filter(|&size| size != 0 /* EOF */))
-                {
+                    // Pending is only ever returned straight from the reader,
+                    // which has then registered the waker.
+                    let result = match Pin::new(&mut stream)
+                        .poll_read(cx, &mut buf[*size..*size + chunk_size])
+                    {
+                        Poll::Ready(res) => res.ok().filter(|&size| size != 0 /* EOF */),
+                        Poll::Pending => return Poll::Pending,
+                    };
+
                     if result.is_none() {
                         return Poll::Ready(None);
                     }
@@ -97,54 +103,50 @@ where
                     // We need to be able to read at least fixed header and one byte of size to proceed.
                     if *size >= 2 {
                         *state = PacketStreamState::ReadPacketLen;
-                        return self.poll_next(cx);
                     }
                 }
+                PacketStreamState::ReadPacketLen => {
+                    // Omit packet ID, try to read the remaining length
+                    // from the bytes received so far.
+                    let maybe_remaining_len =
+                        VarSizeInt::try_from(&buf[1..*size]).map(Some).or_else(|err| {
+                            if let ConversionError::InsufficientBufferSize(_) = err {
+                                return Ok(None); // Need to read more data
+                            }
+                            Err(err)
+                        });
 
-                Poll::Pending
-            }
-            PacketStreamState::ReadPacketLen => {
-                // Omit packet ID, try to read the remaining length.
-                let maybe_remaining_len =
-                    VarSizeInt::try_from(&buf[1..]).map(Some).or_else(|err| {
-                        if let ConversionError::InsufficientBufferSize(_) = err {
-                            return Ok(None); // Need to read more data
-                        }
-                        Err(err)
-                    });
+                    if maybe_remaining_len.is_err() {
+                        return Poll::Ready(None);
+                    }
 
-                if maybe_remaining_len.is_err() {
-                    return Poll::Ready(None);
+                    if let Some(remaining_len) = maybe_remaining_len.unwrap() {
+                        // Fixed header (1 byte), size of Variable Byte Integer
+                        // encoding the remaining length and its value.
+                        packet.start = 0;
+                        packet.end = 1 + remaining_len.len() + remaining_len.value() as usize;
+                        *state = PacketStreamState::ReadPacketData;
+                    } else {
+                        *state = PacketStreamState::Idle;
+                    }
                 }
+                PacketStreamState::ReadPacketData => {
+                    if *size < packet.end {
+                        *state = PacketStreamState::Idle;
+                        continue;
+                    }
 
-                if let Some(remaining_len) = maybe_remaining_len.unwrap() {
-                    // Fixed header (1 byte), size of Variable Byte Integer
-                    // encoding the remaining length and its value.
-                    packet.start = 0;
-                    packet.end = 1 + remaining_len.len() + remaining_len.value() as usize;
-                    *state = PacketStreamState::ReadPacketData;
-                    return self.poll_next(cx);
+                    *size -= packet.len();
+                    if *size != 0 {
+                        *state = PacketStreamState::ReadPacketLen;
+                    } else {
+                        *state = PacketStreamState::Idle;
+                    }
+
+                    return Poll::Ready(Some(RxPacket::try_decode(
+                        buf.split_to(mem::replace(&mut packet.end, 0)).freeze(),
+                    )));
                 }
-
-                *state = PacketStreamState::Idle;
-                self.poll_next(cx)
-            }
-            PacketStreamState::ReadPacketData => {
-                if *size < packet.end {
-                    *state = PacketStreamState::Idle;
-                    return self.poll_next(cx);
-                }
-
-                *size -= packet.len();
-                if *size != 0 {
-                    *state = PacketStreamState::ReadPacketLen;
-                } else {
-                    *state = PacketStreamState::Idle;
-                }
-
-                Poll::Ready(Some(RxPacket::try_decode(
-                    buf.split_to(mem::replace(&mut packet.end, 0)).freeze(),
-                )))
             }
         }
     }
